@@ -26,8 +26,14 @@ func (cb *CBLC) parseIndexSubTables(src []byte) error {
 		}
 		sizeSubtables := make([]BitmapSubtable, len(subtables.Subtables))
 		for j, subtable := range subtables.Subtables {
+			if subtable.LastGlyph < subtable.FirstGlyph {
+				return fmt.Errorf("invalid glyph range [%d, %d]", subtable.FirstGlyph, subtable.LastGlyph)
+			}
 			numGlyphs := int(subtable.LastGlyph) - int(subtable.FirstGlyph) + 1
 			subtableStart := start + int(subtable.additionalOffsetToIndexSubtable)
+			if L := len(src); L < subtableStart {
+				return fmt.Errorf("EOF: expected length: %d, got %d", subtableStart, L)
+			}
 
 			sizeSubtables[j].FirstGlyph = subtable.FirstGlyph
 			sizeSubtables[j].LastGlyph = subtable.LastGlyph
